@@ -30,7 +30,7 @@ SUBKEY = {"suber": "vfsu.", "io": "vfio.", "ioset": "vfis."}
 
 ASSUMPTIONS = [
     "keys {a, ab, a.b, ('a','b'), a.0, a.<32 hex zeros>} (the last one is Duror.suffix('a', 0): key 'a' plus a well-formed "
-    "ordinal suffix), values {x, y}; default separators (Sep '_', IonSep '.')",
+    "ordinal suffix), values {x, y} and, in a second search over fewer keys, {'' (empty), x}; default separators (Sep '_', IonSep '.')",
     "put/pin on the ordered stores are driven with the value lists [y,x] (put) and [x,y] (pin), add with single values",
     "real LMDB (py-lmdb) in a private /dev/shm sandbox; within one BFS job the LMDB environment is opened once and the "
     "sub-database is emptied through lmdb (drop) before each history is replayed with a fresh Suber object - the Suber "
@@ -68,8 +68,10 @@ def RULE(tier):
             "depth %s with events add(k, x|y), put(k,[y,x]), pin(k,[x,y]), pop(k), rem(k) and, for IoSetSuber, rem(k, x|y). "
             "After EVERY operation: its return value is compared with the dict / dict-of-lists / dict-of-ordered-sets model; "
             "get, cnt, getFirst, getLast (Suber: get, cntAll) of the operated key are compared with the model; and for every "
-            "OTHER key of the key set the same four reads must be unchanged by the operation."
-            % (("6", "4", "6") if tier == "thorough" else ("4", "3", "4")))
+            "OTHER key of the key set the same four reads must be unchanged by the operation. The same search is repeated with "
+            "the value alphabet {EMPTY string, x} (Suber over keys a, ab, a.b; IoSuber and IoSetSuber over the pair a, ab) to depth %s: "
+            "an empty value is a value, not an absent key."
+            % (("6", "4", "6", "6") if tier == "thorough" else ("4", "3", "4", "4")))
 
 
 def EXHAUSTIVE(tier):
@@ -80,16 +82,24 @@ def BOUND(tier):
     return "history length per family: " + ", ".join(sorted({"%s/%d keys<=%d" % (f, len(ks), d) for f, ks, d in plan(tier)}))
 
 
-def events_for(fam, ks):
+def events_for(fam, ks, vals="xy"):
+    """vals 'xy': values x, y; vals 'ex': the EMPTY string and x (an empty value is a legal value, not an absent key)"""
+    v1, v2 = ("x", "y") if vals == "xy" else ("", "x")
     ev = []
     for k in ks:
         if fam == "suber":
-            ev += [("put", k, "x"), ("put", k, "y"), ("pin", k, "x"), ("pin", k, "y"), ("rem", k)]
+            ev += [("put", k, v1), ("put", k, v2), ("pin", k, v1), ("pin", k, v2), ("rem", k)]
         else:
-            ev += [("add", k, "x"), ("add", k, "y"), ("put", k, "yx"), ("pin", k, "xy"), ("pop", k), ("rem", k)]
+            ev += [("add", k, v1), ("add", k, v2), ("put", k, (v2, v1)), ("pin", k, (v1, v2)), ("pop", k), ("rem", k)]
             if fam == "ioset":
-                ev += [("rem", k, "x"), ("rem", k, "y")]
+                ev += [("rem", k, v1), ("rem", k, v2)]
     return ev
+
+
+def plan_empty(tier):
+    """[(family, key index tuple, depth)] for the empty-value alphabet"""
+    d = 6 if tier == "thorough" else 4
+    return [("suber", (0, 1, 2), d), ("io", (0, 1), d), ("ioset", (0, 1), d)]
 
 
 def jobs(tier):
@@ -99,6 +109,10 @@ def jobs(tier):
         n = len(events_for(fam, ks))
         for k in range(n):
             out.append((fam, ks, depth, k, n))
+    for fam, ks, depth in plan_empty(tier):
+        n = len(events_for(fam, ks, "ex"))
+        for k in range(n):
+            out.append((fam, ks, depth, k, n, "ex"))
     return out
 
 
@@ -155,7 +169,7 @@ def model_step(fam, model, ev):
             return None, m
         m[k] = cur[1:]
         return cur[0], m
-    if op == "rem" and len(ev) == 2:
+    if op == "rem" and (len(ev) == 2 or ev[2] == ""):     # IoSetSuber.rem documents: "If val is empty, remove all values"
         m[k] = []
         return bool(cur), m
     if op == "rem":
@@ -352,10 +366,10 @@ def execute(sys_, fam, ks, hist, last_only):
 
 
 def run_job(job, tier, seed):
-    fam, ks, depth, k, n = job
+    fam, ks, depth, k, n = job[:5]
     ks = tuple(int(x) for x in ks)
     acc = Acc(job)
-    evs = events_for(fam, ks)
+    evs = events_for(fam, ks, job[5] if len(job) > 5 else "xy")
     with Sandbox(TAG) as sb:
         s = KSys(sb, fam)
         try:
